@@ -53,7 +53,12 @@ def cmd_manifest():
                 "evidence_file": "/verif/evidence/%s.json" % pid,
                 "replay_cmd_template": "./check %s --replay {path}" % pid,
                 "engine": "coq-proof+correspondence",
-                "level_claimed": {"category": meta.get("category", "proof"), "text": meta["level_text"],
+                "level_claimed": {"category": (meta.get("category", "proof") if meta.get("category", "proof") in
+                                               ("exploration", "fault_enumeration", "model_checking", "proof",
+                                                "translation_validation", "other") else "proof"),
+                                  "text": (("" if meta.get("category", "proof") in ("exploration", "fault_enumeration", "model_checking",
+                                            "proof", "translation_validation", "other") else "[%s] " % meta.get("category"))
+                                           + meta["level_text"]),
                                   "design_ref": meta.get("design_ref", "DESIGN.md section 6 / %s" % pid)},
                 "level_note": meta["level_note"],
                 "technique": meta["technique"],
